@@ -19,32 +19,34 @@ OUser ==
      \/ Is("delcache") /\ Has(cache, E.n) /\ DelCache(E.n)
      \/ Is("delruler") /\ rdir.root /\ DelRuler(E.what)
      \/ Is("env") /\ ChangeEnv(E.v)
+     \/ Is("mv") /\ Has(ws, E.p) /\ Move(E.p, E.q)
+     \/ Is("corrupt") /\ (E.what = "table" => rdir.tab = "ok") /\ (E.what # "table" => Has(hist, E.rid)) /\ Corrupt(E.what, E.rid)
 
 OStart ==
   /\ l <= Len(Rec) /\ E.a \in {"build", "clean"} /\ l' = l + 1
   /\ UNCHANGED <<scn, ord, rules, env, vol, verdict>>
   /\ IF Has(E, "state") THEN LoadDisk(E.state) ELSE UNCHANGED <<disk, clock>>
   /\ ev' = Keep(E, {"a", "g", "serial"})
-  /\ g' = Fold(g, ev', ws', cache', hist', fstab', {})
+  /\ g' = Fold(g, ev', ws', cache', hist', fstab', rdir', {})
 
 OEvent ==
   /\ l <= Len(Rec) /\ E.a \in {"step", "join", "deadlock"} /\ l' = l + 1
   /\ UNCHANGED <<scn, ord, rules, env, disk, clock, vol, verdict>>
   /\ ev' = E
-  /\ g' = Fold(g, E, ws, cache, hist, fstab, {})
+  /\ g' = Fold(g, E, ws, cache, hist, fstab, rdir, {})
 
 ORet ==
   /\ Is("ret") /\ UNCHANGED <<scn, ord, rules, env, vol>>
   /\ LoadDisk(E.state)
   /\ verdict' = E.verdict
   /\ ev' = Keep(E, {"a", "kind", "verdict", "errs", "stat"})
-  /\ g' = Fold(g, ev', ws', cache', hist', fstab', ScopeTargets(g.goal))
+  /\ g' = Fold(g, ev', ws', cache', hist', fstab', rdir', ScopeTargets(g.goal))
 
 OCrash ==
   /\ Is("crash") /\ LoadDisk(E.state)
   /\ UNCHANGED <<scn, ord, rules, env, vol>> /\ verdict' = "none"
   /\ ev' = [a |-> "crash", inexec |-> E.inexec]
-  /\ g' = Fold(g, ev', ws', cache', hist', fstab', {})
+  /\ g' = Fold(g, ev', ws', cache', hist', fstab', rdir', {})
 
 ONext == TReset \/ TLoad \/ OCrash \/ OUser \/ OStart \/ OEvent \/ ORet
 
@@ -61,6 +63,7 @@ ObsProps ==
   /\ Chk("C09_OnlyScopeTouched", C09_OnlyScopeTouched) /\ Chk("C09_Touched", T_C09_Touched)
   /\ Chk("C10_CleanMovesToCache", C10_CleanMovesToCache) /\ Chk("C10_BuildBringsBack", C10_BuildBringsBack)
   /\ Chk("C11_CrashStateSane", C11_CrashStateSane) /\ Chk("C11_Recovers", C11_Recovers)
+  /\ Chk("C12_InvalidRejected", C12_InvalidRejected) /\ Chk("C16_DamagedRejected", C16_DamagedRejected)
   /\ Chk("C17_ContradictionReported", C17_ContradictionReported) /\ Chk("C17_HistoryKept", C17_HistoryKept)
   /\ Chk("C18_Twin", T_C18_Twin)
   /\ Chk("C20_StatusTruth", C20_StatusTruth)
